@@ -1004,4 +1004,42 @@ def kernels(start_id):
                                            "arms": [{"case": cases[0]["n"], "bind": "k", "body": {"stmts": [{"k": "mark", "tag": T(2)}], "fin": bop("+", v("k"), num(1))}},
                                                     {"case": cases[1]["n"], "bind": "", "body": {"stmts": [{"k": "mark", "tag": T(3)}], "fin": num(0)}}],
                                            "dflt": {"k": "none"}}})
+    # K11 a match / if whose rules have a VALUE, used as a statement that is not the last one of its block: the value is dropped,
+    # the statements after it run (in a function body, in a lambda, in the branch of an if, in a rule of an outer match)
+    def valmatch(un, cases, built_var, base):
+        return {"k": "umatch", "target": v(built_var),
+                "arms": [{"case": cases[0]["n"], "bind": "k", "body": {"stmts": [{"k": "mark", "tag": T(base + 1)}], "fin": bop("+", v("k"), num(1))}},
+                         {"case": cases[1]["n"], "bind": "", "body": {"stmts": [{"k": "mark", "tag": T(base + 2)}], "fin": num(0)}}],
+                "dflt": {"k": "none"}}
+    for built in (0, 1):
+        for place in ("fn", "lam", "ifbranch", "rule", "strmatch"):
+            un = "P%dVS" % pid[0]
+            cases = [{"n": "P%dVA" % pid[0], "p": True}, {"n": "P%dVB" % pid[0], "p": False}]
+            u = {"k": "union", "name": un, "cases": cases, "ptypes": [INT, None]}
+            ctor = {"k": "ctor", "union": un, "case": cases[built]["n"], "arg": num(4) if built == 0 else {"k": "none"}}
+            if place == "strmatch":
+                stmt = {"k": "expr", "e": {"k": "smatch", "target": v("s"),
+                                           "arms": [{"lit": "a", "body": {"stmts": [{"k": "mark", "tag": T(1)}], "fin": num(1)}}],
+                                           "last": {"k": "dflt", "x": "", "body": {"stmts": [{"k": "mark", "tag": T(2)}], "fin": num(2)}}}}
+                body = {"stmts": [{"k": "let", "x": "s", "e": {"k": "str", "v": "a" if built == 0 else "zz"}}, stmt, {"k": "mark", "tag": T(3)}], "fin": num(100)}
+                add([], [], body)
+                continue
+            stmt = {"k": "expr", "e": valmatch(un, cases, "c", 0)}
+            inner = {"stmts": [stmt, {"k": "mark", "tag": T(5)}], "fin": num(100)}
+            if place == "fn":
+                f = {"name": "p%dstep" % pid[0], "params": ["c"], "ptypes": [("uni", un)], "rtype": INT, "body": inner}
+                add([u], [f], {"stmts": [], "fin": {"k": "app", "f": f["name"], "args": [ctor]}})
+            elif place == "lam":
+                # (an inner function: the renderer writes lambdas on one line)
+                add([u], [], {"stmts": [{"k": "letfun", "name": "g", "params": ["c"], "ptypes": [("uni", un)], "body": inner}], "fin": {"k": "app", "f": "g", "args": [ctor]}})
+            elif place == "ifbranch":
+                add([u], [], {"stmts": [{"k": "let", "x": "c", "e": ctor},
+                                        {"k": "let", "x": "r", "e": {"k": "if", "c": _pb(T(7), True), "t": inner, "e": {"stmts": [], "fin": num(400)}}}],
+                              "fin": bop("+", v("r"), num(1))})
+            else:
+                outer = {"k": "umatch", "target": v("o"),
+                         "arms": [{"case": cases[0]["n"], "bind": "", "body": inner}, {"case": cases[1]["n"], "bind": "", "body": {"stmts": [], "fin": num(7)}}],
+                         "dflt": {"k": "none"}}
+                outer["arms"][0]["bind"] = "_"
+                add([u], [], {"stmts": [{"k": "let", "x": "c", "e": ctor}, {"k": "let", "x": "o", "e": {"k": "ctor", "union": un, "case": cases[0]["n"], "arg": num(1)}}], "fin": outer})
     return progs
